@@ -237,6 +237,19 @@ def handle (op : String) (args : List PyVal) : Option (List PyVal) :=
     let m ← optNat size
     if batch ≤ 0 then none
     else pure [.list (drain { tables := ts, current := [], processed := 0, maxSize := m, batch := batch.toNat })]
+  | "iter", [.list tables, size, .str shape, .str kind] => do
+    -- the size is an object of kind `kind`: the guard's (generated) type test decides whether it is seen at all
+    let ts ← tables.mapM decodeTable
+    let sz ← optNat size
+    let x ← (match shape, ts with
+      | "list", _ => some (Input.list ts)
+      | "tuple", _ => some (Input.tuple ts)
+      | "generator", _ => some (Input.generator ts)
+      | "single", [t] => some (Input.single t)
+      | _, _ => none)
+    match fromArrowInputKind x kind sz with
+    | some rows => pure [.list rows, .list (drainPinned (init ts (sizeSeen Gen.ArrowExpr.sizeKinds kind sz)))]
+    | none => pure [.list [.str "raises"], .list [.str "raises"]]
   | "iter", [.list tables, size, .str shape] => do
     let ts ← tables.mapM decodeTable
     let sz ← optNat size
@@ -253,6 +266,12 @@ def handle (op : String) (args : List PyVal) : Option (List PyVal) :=
     let ts ← tables.mapM decodeTable
     let sz ← optNat size
     pure [.list (fromArrowRows ts sz), .list (drainPinned (init ts sz))]
+  | "roundtrip", [.list names, .list rows, size, .str kind] => do
+    let ns ← names.mapM asStr
+    let rs ← rows.mapM asList
+    let sz ← optInt size
+    let t := toArrowKind ns rs kind sz
+    pure [.list (t.names.map .str), .int t.numRows, .list ((roundtripRowsKind ns rs kind sz).map .list)]
   | "roundtrip", [.list names, .list rows, size] => do
     let ns ← names.mapM asStr
     let rs ← rows.mapM asList
